@@ -581,8 +581,26 @@ def main():
                     unlisted.append(k)
             if not unlisted:
                 continue
+            only_unwind = all("|unwinding assertion" in k or "|recursion unwinding assertion" in k for k in unlisted)
             if a.no_replay:
                 rep, rpath, note = None, "(replay skipped)", "replay skipped by --no-replay"
+            elif only_unwind and h.get("termination") == "1":
+                # Termination harness: the unwinding bound (table capacity + 1) IS the oracle -- a probe
+                # loop that has not ended after visiting every slot once never ends. Kani produces no
+                # concrete playback for unwinding assertions, so the solver's verdict is reported as is.
+                os.makedirs(os.path.join(REPLAY_DIR, prop), exist_ok=True)
+                rpath = os.path.join(REPLAY_DIR, prop, h["name"] + ".txt")
+                open(rpath, "w").write(
+                    f"Property {prop}, harness {h['name']} ({h['file']}).\n"
+                    "The solver found a table state and key for which the loop below does not end within\n"
+                    "capacity + 1 iterations (unwinding assertion violated), i.e. it never ends:\n  "
+                    + "\n  ".join(unlisted) + "\n"
+                    "No concrete playback exists for unwinding assertions; re-run with\n"
+                    f"  ./check {prop} --harness {h['name']} --keep\nand inspect the CBMC log.\n")
+                rep, note = True, "termination oracle: unwinding assertion of a probe loop violated (no native replay possible)"
+            elif only_unwind:
+                rep, rpath, note = None, "(none)", ("only unwinding assertions failed: the harness's loop bound is too small for the "
+                                                     "code as it is now (changed code?) -- nothing can be concluded")
             else:
                 rep, rpath, note = replay_counterexample(h, scratch, prop)
             notes.append(f"{r['harness']}: {note}; failing checks: {unlisted[:6]}")
